@@ -846,28 +846,32 @@ impl<'a> Gen<'a> {
             let name = *self.rng.pick(&["MyTy", "Pair", "T", "Word", "Amt", "Flag_t", "Data8", "u8x", "Boolean"]);
             let name = format!("{name}{k}");
             let mut rng = self.rng.clone();
-            let mut replace = |t: &mut Ty| {
-                if *t == target && rng.chance(2, 3) {
-                    *t = Ty::Alias(name.clone());
+            // every written type (annotations, match binders, type arguments of calls), also
+            // where the aliased type occurs as a component of a larger type
+            fn replace(t: &mut Ty, target: &Ty, name: &str, rng: &mut Rng) {
+                if *t == *target && rng.chance(2, 3) {
+                    *t = Ty::Alias(name.to_string());
+                    return;
                 }
-            };
-            for f in self.prog.funcs_mut() {
-                for (_, t) in f.params.iter_mut() {
-                    replace(t);
-                }
-                if let Some(t) = &mut f.ret {
-                    replace(t);
-                }
-                f.body.visit_mut(&mut |e| {
-                    if let Expr::Block(stmts, _) = e {
-                        for s in stmts.iter_mut() {
-                            if let Stmt::Let(_, t, _) = s {
-                                replace(t);
-                            }
-                        }
+                match t {
+                    Ty::Tuple(ts) => ts.iter_mut().for_each(|x| replace(x, target, name, rng)),
+                    Ty::Array(x, _) | Ty::List(x, _) | Ty::Option(x) => replace(x, target, name, rng),
+                    Ty::Either(l, r) => {
+                        replace(l, target, name, rng);
+                        replace(r, target, name, rng);
                     }
-                });
+                    _ => {}
+                }
             }
+            // the existing alias definitions are left alone (an alias is defined before it is used)
+            let mut later = std::mem::take(&mut self.prog.items);
+            let n_alias_items = later.iter().take_while(|i| matches!(i, Item::Alias(..))).count();
+            let earlier: Vec<Item> = later.drain(..n_alias_items).collect();
+            self.prog.items = later;
+            self.prog.for_each_annotation(&mut |t| replace(t, &target, &name, &mut rng));
+            let mut items = earlier;
+            items.append(&mut self.prog.items);
+            self.prog.items = items;
             self.rng = rng;
             let pos = self
                 .prog
@@ -899,36 +903,7 @@ impl<'a> Gen<'a> {
                     _ => {}
                 }
             }
-            for item in self.prog.items.iter_mut() {
-                if let Item::Alias(_, t) = item {
-                    walk(t, &mut rng);
-                }
-            }
-            for f in self.prog.funcs_mut() {
-                for (_, t) in f.params.iter_mut() {
-                    walk(t, &mut rng);
-                }
-                if let Some(t) = &mut f.ret {
-                    walk(t, &mut rng);
-                }
-                f.body.visit_mut(&mut |e| match e {
-                    Expr::Block(stmts, _) => {
-                        for s in stmts.iter_mut() {
-                            if let Stmt::Let(_, t, _) = s {
-                                walk(t, &mut rng);
-                            }
-                        }
-                    }
-                    Expr::Match(_, arms) => {
-                        for a in arms.iter_mut() {
-                            if let MatchPat::Some_(_, t) | MatchPat::Left(_, t) | MatchPat::Right(_, t) = &mut a.pat {
-                                walk(t, &mut rng);
-                            }
-                        }
-                    }
-                    _ => {}
-                });
-            }
+            self.prog.for_each_annotation(&mut |t| walk(t, &mut rng));
             self.rng = rng;
         }
     }
